@@ -1,3 +1,3 @@
 CONSTANTS Design = "intended" Lis = {0, 1, 2, 3, 4, 5} Plans = "all"
 SPECIFICATION Spec
-INVARIANTS NoIgnoredLogged NoIgnoredCounted AnonStored AnonReported SearchNames SearchClientsIdentifiable OracleConsistent
+INVARIANTS NoIgnoredLogged NoIgnoredCounted AnonStored AnonReported SearchNames SearchClientsIdentifiable OracleConsistent RegistryAsConfigured
